@@ -24,6 +24,7 @@ import os
 import random
 import shutil
 import sys
+import threading
 import time
 import traceback
 from concurrent.futures import ThreadPoolExecutor
@@ -74,6 +75,7 @@ class Ctx:
 class Part:
     """Base class of one spec<->code binding.  Subclasses override what they need."""
     name = "part"
+    case_timeout = 300           # seconds one case may spend inside the implementation before it is reported as non-terminating
     trace_module = None          # TLA+ module validating the traces of this part
     trace_env = {}               # extra environment for the trace module (constants passed through IOEnv)
     trace_workers = 2
@@ -301,6 +303,34 @@ def load_known(pid):
     return [k for k in data.get("findings", []) if k.get("property") == pid and k.get("status") == "known"]
 
 
+def _report_hang(ctx, part, case, level, assumptions, level_rule):
+    """called from a timer thread when one case exceeds part.case_timeout seconds inside the implementation"""
+    v = {"part": part.name, "case": jsonable({k: x for k, x in case.items() if not k.startswith("_")}),
+         "trace": [{"ev": "hang", "after_s": part.case_timeout}],
+         "fail": {"event": 0, "clause": "implementation-does-not-terminate"}, "key": "%s:hang" % part.name}
+    for k in load_known(ctx.pid):
+        if fnmatch.fnmatchcase(v["key"], k["match"]):
+            ctx.say("KNOWN-FINDING: property=%s %s [match=%s]" % (ctx.pid, k["what"], k["match"]))
+            ctx.cleanup()
+            os._exit(0)
+    os.makedirs(os.path.join(VERIF, "out", "replays"), exist_ok=True)
+    h = hashlib.sha1(json.dumps(v, sort_keys=True).encode()).hexdigest()[:12]
+    path = os.path.join(VERIF, "out", "replays", "%s-%s.json" % (ctx.pid, h))
+    with open(path, "w") as f:
+        json.dump({"property": ctx.pid, "seed": ctx.seed, "tier": ctx.tier, **v}, f, indent=1)
+    ctx.say("VIOLATION property=%s replay=%s" % (ctx.pid, path))
+    ctx.say("  part=%s clause=%s event=0 key=%s (no return after %d s)" % (part.name, v["fail"]["clause"], v["key"], part.case_timeout))
+    evdir = os.environ.get("VERIF_EVIDENCE_DIR") or os.path.join(VERIF, "evidence")
+    os.makedirs(evdir, exist_ok=True)
+    with open(os.path.join(evdir, ctx.pid + ".json"), "w") as f:
+        json.dump({"property_id": ctx.pid, "tier": ctx.tier, "seed": ctx.seed, "level": level,
+                   "coverage": {"rule": level_rule, "notes": ["run ended early: a call into the implementation did not return within %d s"
+                                                              % part.case_timeout]},
+                   "assumptions": assumptions, "wall_s": round(time.time() - ctx.t0, 2), "violations": 1}, f, indent=1)
+    ctx.cleanup()
+    os._exit(1)
+
+
 # ----------------------------------------------------------------------------------------------
 # the engine
 # ----------------------------------------------------------------------------------------------
@@ -361,8 +391,19 @@ def run_property(ctx, parts, level, assumptions, level_rule, replay=None):
         traces, kept, crashed = [], [], []
         with quiet():
             for c in cases:
+                hang_timer = None
+                if getattr(part, "case_timeout", None):
+                    # a call into the implementation that never returns cannot be interrupted in-process: it is reported as what it is
+                    # (the batch / run does not terminate) and the process ends.  The limit is far above any normal duration.
+                    hang_timer = threading.Timer(part.case_timeout, _report_hang, args=(ctx, part, c, level, assumptions, level_rule))
+                    hang_timer.daemon = True
+                    hang_timer.start()
                 try:
-                    tr = part.run_case(ctx, c)
+                    try:
+                        tr = part.run_case(ctx, c)
+                    finally:
+                        if hang_timer is not None:
+                            hang_timer.cancel()
                 except Skip:
                     info["skipped"] += 1
                     continue
